@@ -328,8 +328,9 @@ def two_theta(
     b2 = scattered_beam / L2(scattered_beam=scattered_beam)
 
     y = sc.norm(b1 - b2)
-    b2 += b1
-    x = sc.norm(b2)
+    # not `b2 += b1`: an in-place sum cannot broadcast when incident_beam has a
+    # dim (e.g. several source positions) that scattered_beam lacks
+    x = sc.norm(b1 + b2)
     res = sc.atan2(y=y, x=x, out=x)
     res *= 2
     return res
